@@ -21,7 +21,9 @@ Part 2  All remaining events, sharded with ``vt.par.run_shards``; one case = fre
     ``todict``, ``__doc__``, ``_parse_bool``, wrong letter case), wrong arity (``.set boxed true false``),
     legacy un-dotted ``set`` / ``SET``; and the observers: ``.set``, ``set``, ``.set NAME`` (9), ``.set`` of
     unknown names / methods / dunders, unknown dot-commands (``.foo``, ``.boxed true``, ``.select ...``,
-    ``.print``, ``.balances``), unknown bare words, ``.tables``, ``.describe [X]``, ``.run``,
+    ``.print``, ``.balances``), a KNOWN command behind two / three dots with valid arguments
+    (``..set boxed true``, ``...tables`` ...: unknown commands -- error, no effect, and not the output of the genuine
+    command, compared with a twin shell) and lines of dots only, unknown bare words, ``.tables``, ``.describe [X]``, ``.run``,
     ``.run UNKNOWN``, ``run UNKNOWN``, ``.run A B``.  The successor of every such transition must be a
     member of the BFS state set (for observers: the same state).  BFS-closed under the generators +
     every other transition from every state lands inside the set  ==>  the set is closed under the FULL
@@ -32,7 +34,8 @@ Part 2  All remaining events, sharded with ``vt.par.run_shards``; one case = fre
     and ``;``; PRINT; four SELECTs whose FROM clause has an UNDATED ``CLOSE`` -- alone, with OPEN ON, with CLEAR,
     with a filter -- on a ledger with a currency conversion so that the closing entries show), ``.run NAME``
     for eight named queries (three of them with an undated CLOSE, which -- like a dated one -- must not be
-    replaced by the directive's date), legacy ``run NAME``, ``.run "NAME";``,
+    replaced by the directive's date; seven covering every CLOSE-less FROM shape [expr] [OPEN ON d] [CLEAR],
+    whose expectation is the text with CLOSE ON <directive date> inserted before CLEAR), legacy ``run NAME``, ``.run "NAME";``,
     ``.explain``: quick = every state within two ``.set`` changes of the initial one (55),
     thorough = all 768.
     A transition on which the real store leaves everything the model admits (``Desync``) is reported and
@@ -144,6 +147,13 @@ option "title" "C19 ledger"
 2020-01-31 query "undated" "SELECT account, sum(position) AS total FROM CLOSE GROUP BY account ORDER BY account"
 2020-02-10 query "undated-open" "SELECT account, sum(position) AS total FROM OPEN ON 2020-01-05 CLOSE CLEAR GROUP BY account ORDER BY account"
 2020-01-31 query "undated-filter" "SELECT account, sum(position) AS total FROM year = 2020 CLOSE GROUP BY account ORDER BY account"
+2020-02-10 query "shape-open" "SELECT account, sum(position) AS total FROM OPEN ON 2020-01-05 GROUP BY account ORDER BY account"
+2020-02-10 query "shape-expr-open" "SELECT account, sum(position) AS total FROM year = 2020 OPEN ON 2020-01-05 GROUP BY account ORDER BY account"
+2020-02-10 query "shape-clear" "SELECT account, sum(position) AS total FROM CLEAR GROUP BY account ORDER BY account"
+2020-02-10 query "shape-expr-clear" "SELECT account, sum(position) AS total FROM year = 2020 CLEAR GROUP BY account ORDER BY account"
+2020-02-10 query "shape-open-clear" "SELECT account, sum(position) AS total FROM OPEN ON 2020-01-05 CLEAR GROUP BY account ORDER BY account"
+2020-02-10 query "shape-expr-open-clear" "SELECT account, sum(position) AS total FROM year = 2020 OPEN ON 2020-01-05 CLEAR GROUP BY account ORDER BY account"
+2020-03-31 query "closed-clear" "SELECT account, sum(position) AS total FROM year = 2020 CLOSE ON 2020-02-01 CLEAR GROUP BY account ORDER BY account"
 2020-01-31 query "twin-a" "SELECT date, account, position FROM flag = '*' ORDER BY date, account"
 2020-02-29 query "twin-b" "SELECT date, account, position FROM flag = '*' ORDER BY date, account"
 '''
@@ -205,6 +215,14 @@ NAMED = {
     'undated': ('explicit', [_AGG % "CLOSE"]),
     'undated-open': ('explicit', [_AGG % "OPEN ON 2020-01-05 CLOSE CLEAR"]),
     'undated-filter': ('explicit', [_AGG % "year = 2020 CLOSE"]),
+    # every CLOSE-less shape of the FROM clause: [expr] [OPEN ON d] [CLEAR]; CLOSE ON <directive date> goes between
+    'shape-open': ('default-close', [_AGG % "OPEN ON 2020-01-05 CLOSE ON 2020-02-10"]),
+    'shape-expr-open': ('default-close', [_AGG % "year = 2020 OPEN ON 2020-01-05 CLOSE ON 2020-02-10"]),
+    'shape-clear': ('default-close', [_AGG % "CLOSE ON 2020-02-10 CLEAR"]),
+    'shape-expr-clear': ('default-close', [_AGG % "year = 2020 CLOSE ON 2020-02-10 CLEAR"]),
+    'shape-open-clear': ('default-close', [_AGG % "OPEN ON 2020-01-05 CLOSE ON 2020-02-10 CLEAR"]),
+    'shape-expr-open-clear': ('default-close', [_AGG % "year = 2020 OPEN ON 2020-01-05 CLOSE ON 2020-02-10 CLEAR"]),
+    'closed-clear': ('explicit', [_AGG % "year = 2020 CLOSE ON 2020-02-01 CLEAR"]),
     # two directives with IDENTICAL text and different dates: each is closed on its OWN date
     'twin-a': ('default-close', [_TWIN % " CLOSE ON 2020-01-31"]),
     'twin-b': ('default-close', [_TWIN % " CLOSE ON 2020-02-29"]),
@@ -223,6 +241,21 @@ NAMED_PLAIN = {
     'cash-flow': "select date, account, position from account ~ 'Bank' where account ~ 'Bank' order by date, account",
     'twin-a': _TWIN % "",
     'twin-b': _TWIN % "",
+}
+# what .run NAME must NOT print: name -> [(fingerprint, text)]  (diagnosis + non-vacuity)
+_ND, _NC, _NO = 'run:default-close-not-applied', 'run:clear-dropped', 'run:open-dropped'
+NAMED_WRONG = {
+    'shape-open': [(_ND, _AGG % "OPEN ON 2020-01-05"), (_NO, _AGG % "CLOSE ON 2020-02-10")],
+    'shape-expr-open': [(_ND, _AGG % "year = 2020 OPEN ON 2020-01-05"), (_NO, _AGG % "year = 2020 CLOSE ON 2020-02-10")],
+    'shape-clear': [(_ND, _AGG % "CLEAR"), (_NC, _AGG % "CLOSE ON 2020-02-10")],
+    'shape-expr-clear': [(_ND, _AGG % "year = 2020 CLEAR"), (_NC, _AGG % "year = 2020 CLOSE ON 2020-02-10")],
+    'shape-open-clear': [(_ND, _AGG % "OPEN ON 2020-01-05 CLEAR"), (_NC, _AGG % "OPEN ON 2020-01-05 CLOSE ON 2020-02-10"),
+                         (_NO, _AGG % "CLOSE ON 2020-02-10 CLEAR")],
+    'shape-expr-open-clear': [(_ND, _AGG % "year = 2020 OPEN ON 2020-01-05 CLEAR"),
+                              (_NC, _AGG % "year = 2020 OPEN ON 2020-01-05 CLOSE ON 2020-02-10"),
+                              (_NO, _AGG % "year = 2020 CLOSE ON 2020-02-10 CLEAR")],
+    'closed-clear': [('run:explicit-close-overridden', _AGG % "year = 2020 CLOSE ON 2020-03-31 CLEAR"),
+                     (_NC, _AGG % "year = 2020 CLOSE ON 2020-02-01")],
 }
 # the result closed on the date of ANOTHER directive with the same text
 NAMED_OTHER_DATE = {
@@ -385,6 +418,12 @@ def assign_alphabet(seed):
     return evs
 
 
+_MULTIDOT_WHY = ('multi-dot-command', 'dots-only')
+_MULTIDOT_FP = 'dispatch:multi-dot-not-rejected'     # one defect, three faces: executed / silent / state changed
+MULTIDOT_COMMANDS = ['set boxed true', 'set format csv', 'set nullvalue NULL', 'set', 'set boxed', 'tables',
+                     'describe postings', 'run', 'errors', 'help', 'reload', 'exit', 'quit']
+
+
 def cheap_events(seed):
     m = menus(seed)
     evs = [('echo_all', '.set', False), ('echo_all', 'set', True)]
@@ -403,6 +442,15 @@ def cheap_events(seed):
         ('error', '.run ' + m['unknown'], 'run-unknown', None, False),
         ('error', 'run ' + m['unknown'], 'run-unknown', None, True),
         ('error', '.run jan closed', 'run-arity', None, False),
+    ]
+    # a KNOWN command name behind two or three dots is an unknown command (as is a line of dots only): error message,
+    # no effect, and above all NOT what the known command prints ('same-as': compared with a twin shell in the
+    # same state running the genuine command -- a negative differential, only consulted when stdout is non-empty)
+    for dots in ('..', '...'):
+        for rest in MULTIDOT_COMMANDS:
+            evs.append(('error', dots + rest, 'multi-dot-command', ('same-as', '.' + rest), False))
+    evs += [('error', '..', 'dots-only', None, False), ('error', '...', 'dots-only', None, False)]
+    evs += [
         ('tables', '.tables'),
         ('describe', '.describe postings', 'postings'),
         ('describe', '.describe', None),
@@ -421,6 +469,9 @@ def costly_events(seed):
     evs.append(('run', 'run jan', 'jan', True))
     evs.append(('run', '.run "closed";', 'closed', False))
     evs.append(('explain', '.explain ' + STATEMENTS[1][1], 1))
+    # multi-dot spellings of the commands that parse / execute a statement
+    for rest in ('run jan', 'parse SELECT 1', 'explain SELECT account'):
+        evs.append(('error', '..' + rest, 'multi-dot-command', ('same-as', '.' + rest), False))
     return evs
 
 
@@ -559,7 +610,8 @@ class ShellProduct:
             if sp is None and self.real_canon() != canon_before:
                 sp = f'shell attributes changed: {canon_before[1:]} -> {self.real_canon()[1:]}'
             if sp is not None:
-                raise Desync(f'state-changed:{ev[0]}' + (f':{ev[2]}' if ev[0] == 'error' else ''),
+                raise Desync(_MULTIDOT_FP if ev[0] == 'error' and ev[2] in _MULTIDOT_WHY else
+                             f'state-changed:{ev[0]}' + (f':{ev[2]}' if ev[0] == 'error' else ''),
                              f'{ev[1]!r} must not change the settings, but {sp}' + self._also(problems))
         self.model = new_model
         return problems
@@ -655,9 +707,19 @@ class ShellProduct:
         if exc is not None and not isinstance(exc, beanquery.Error):
             problems.append((crash_fingerprint(exc), f'{line!r} raised {type(exc).__name__}: {exc}; expected an error message'))
         elif exc is None and not (out.strip() or err.strip()):
-            problems.append((f'error:no-message:{why}', f'{line!r} ({why}) printed no error message'))
+            problems.append((_MULTIDOT_FP if why in _MULTIDOT_WHY else f'error:no-message:{why}',
+                             f'{line!r} ({why}) printed no error message'))
         self.info['reported_by'] = 'exception' if exc is not None else 'message'
-        if forbidden is not None:
+        if forbidden is not None and forbidden[0] == 'same-as':
+            if exc is None and out.strip():
+                twin = ShellProduct()
+                for h in self.history:
+                    twin.replay_step(h)
+                tout, terr, texc = twin.run_line(forbidden[1])
+                if texc is None and _ADDRESS.sub('0x?', tout) == _ADDRESS.sub('0x?', out):
+                    problems.append((_MULTIDOT_FP, f'{line!r} is an unknown command but printed exactly what '
+                                                                 f'{forbidden[1]!r} prints: {out[:200]!r}'))
+        elif forbidden is not None:
             kind, text = forbidden
             exp = world().printed(text) if kind == 'print' else world().render(text, self.model)
             if isinstance(exp, str) and exp in out:
@@ -786,6 +848,9 @@ class ShellProduct:
             plain = NAMED_PLAIN.get(name)
             if plain and w.render(plain, self.model) == observed:
                 return 'run:default-close-not-applied', ' (it is the result WITHOUT the default CLOSE ON <directive date>)'
+            for fp, wrong in NAMED_WRONG.get(name, ()):
+                if w.render(wrong, self.model) == observed:
+                    return fp, f' (it is the result of {wrong!r})'
             other = NAMED_OTHER_DATE.get(name)
             if other and w.render(other, self.model) == observed:
                 return 'run:close-date-of-another-query', ' (it is closed on the date of ANOTHER query directive with the same text)'
@@ -934,7 +999,8 @@ def prime(evs):
         if ev[0] == 'stmt':
             texts = [STATEMENTS[ev[2]][1]] + [o for _, o in STMT_NOT.get(STATEMENTS[ev[2]][1], ())]
         elif ev[0] == 'run':
-            texts = list(NAMED[ev[2]][1]) + [d[ev[2]] for d in (NAMED_PLAIN, NAMED_OVERRIDDEN, NAMED_OTHER_DATE) if ev[2] in d]
+            texts = (list(NAMED[ev[2]][1]) + [d[ev[2]] for d in (NAMED_PLAIN, NAMED_OVERRIDDEN, NAMED_OTHER_DATE) if ev[2] in d]
+                     + [t for _, t in NAMED_WRONG.get(ev[2], ())])
         elif ev[0] == 'print':
             w.printed(STATEMENTS[ev[2]][1])
             continue
@@ -1251,10 +1317,11 @@ def run(ctx):
     for _, texts in NAMED.values():
         for t in texts:
             w.result(t)
-    for t in list(NAMED_PLAIN.values()) + list(NAMED_OVERRIDDEN.values()) + list(NAMED_OTHER_DATE.values()) + [o for v in STMT_NOT.values() for _, o in v]:
+    for t in (list(NAMED_PLAIN.values()) + list(NAMED_OVERRIDDEN.values()) + list(NAMED_OTHER_DATE.values())
+              + [t for v in NAMED_WRONG.values() for _, t in v]) + [o for v in STMT_NOT.values() for _, o in v]:
         w.result(t)
     for ev in cheap_events(seed):
-        if ev[0] == 'error' and ev[3] is not None:
+        if ev[0] == 'error' and ev[3] is not None and ev[3][0] != 'same-as':
             w.printed(ev[3][1]) if ev[3][0] == 'print' else w.result(ev[3][1])
     null_cells = sum(1 for k, t in STATEMENTS if k != 'print' for r in w.result(t)[0][1] for v in r if v is None)
     inv_cols = sum(1 for k, t in STATEMENTS if k != 'print' for c in w.result(t)[0][0]
@@ -1272,6 +1339,9 @@ def run(ctx):
     for text, others in STMT_NOT.items():
         close_matters['typed: ' + text] = all(isinstance(w.render(text, initial), str)
                                               and w.render(text, initial) != w.render(o, initial) for _, o in others)
+    for name, wrongs in NAMED_WRONG.items():
+        good = w.render(NAMED[name][1][0], initial)
+        close_matters[name] = isinstance(good, str) and all(w.render(t, initial) != good for _, t in wrongs)
     twins = [w.render(_TWIN % c, initial) for c in ("", " CLOSE ON 2020-01-31", " CLOSE ON 2020-02-29")]
     close_matters['twin-a / twin-b / typed all differ'] = len(set(twins)) == 3 and all(isinstance(t, str) for t in twins)
     if not all(v for k, v in close_matters.items() if k != 'bal'):
